@@ -477,6 +477,14 @@ def idempotence(ctx, cls, name, builder, obs):
                           site=f"{cls}.get_objective_value:repeat")
         if bool(s1) != bool(s2):
             report(ctx, f"{cls} ({name}): solve() returned {s1} then {s2}", inp, site=f"{cls}.solve:repeat")
+        elif g2 is not None and g3 != g2:
+            report(ctx, f"{cls} ({name}): get_solution() after a second solve() differs from the one after the first: "
+                        f"{str(g2)[:120]} vs {str(g3)[:120]}", inp, site=f"{cls}.solve:repeat")
+        else:
+            o3 = m.get_objective_value() if hasattr(m, "get_objective_value") else None
+            if o3 != o2:
+                report(ctx, f"{cls} ({name}): get_objective_value() is {o2} after the first solve() and {o3} after the second", inp,
+                       site=f"{cls}.solve:repeat")
         mine = [isnone for (i, isnone) in calls if i == id(m)]
         if mine:
             obs.computed = True
@@ -557,6 +565,37 @@ def rescale(G, factor):
             d["flow"] = d["flow"] * factor
 
 
+REWIRE = {"dag": ([("s", "a", 5), ("s", "b", 3), ("a", "b", 2), ("a", "t", 3), ("b", "t", 5)],     # the base input
+                  [("s", "a", 3), ("s", "b", 3), ("s", "t", 2), ("a", "t", 3), ("b", "t", 3)]),    # (a,b) replaced by (s,t)
+          "cyc": ([("s", "a", 3), ("a", "b", 6), ("b", "a", 3), ("b", "t", 3)],                    # the base shape (width 1; one walk s a b a b t)
+                  [("s", "a", 5), ("a", "b", 3), ("a", "t", 2), ("b", "t", 3)])}                   # (b,a) replaced by (a,t): width 2
+
+
+def rewire(G, family, scale=1):
+    """the caller edits the STRUCTURE of the graph it owns between two models: one edge is replaced by another one (same
+    nodes, same number of nodes and edges, a conserving flow again) - toggles between the two shapes of REWIRE"""
+    a, b = REWIRE[family]
+    only_a = [e[:2] for e in a if e[:2] not in [x[:2] for x in b]]
+    target = b if G.has_edge(*only_a[0]) else a
+    for (u, v) in list(G.edges()):
+        if (u, v) not in [e[:2] for e in target]:
+            G.remove_edge(u, v)
+    for (u, v, f) in target:
+        if not G.has_edge(u, v):
+            G.add_edge(u, v, length=1)
+        G[u][v]["flow"] = f * scale
+
+
+def apply_edits(G, family, steps):
+    """replays the caller's in-place edits of the steps given (rewire before rescale within a step)"""
+    scale = 1
+    for st in steps:
+        if st.get("rewire"):
+            rewire(G, family, scale)
+        if st.get("rescale"):
+            rescale(G, st["rescale"]); scale *= st["rescale"]
+
+
 def explains_flow(G, sol):
     """do the returned routes and weights add up to the flow values the graph has NOW (edge-weighted input)?"""
     key = "paths" if "paths" in sol else "walks"
@@ -594,6 +633,8 @@ def random_history(rng, family):
         st = {"cls": cls, "features": feats, "dk": rng.choice([0, 0, 1, 2])}
         if steps and rng.random() < 0.3:
             st["rescale"] = rng.choice([2, 3])          # the shared graph object is edited in place before this step
+        if rng.random() < 0.25:
+            st["rewire"] = True                         # ... or rewired in place (same size, another shape)
         steps.append(st)
     return steps
 
@@ -602,16 +643,16 @@ def history_case(ctx, family, steps, suite="C18.history"):
     fp = ctx.fp
     shared = pristine(family)
     got, want = [], []
+    scale = 1
     for st in steps:
+        if st.get("rewire"):
+            rewire(shared["G"], family, scale)
         if st.get("rescale"):
-            rescale(shared["G"], st["rescale"])
+            rescale(shared["G"], st["rescale"]); scale *= st["rescale"]
         got.append(run_step(fp, st, shared))
-    total = 1
-    for st in steps:
-        total *= st.get("rescale", 1)
+    for i, st in enumerate(steps):
         fresh = pristine(family)
-        if total != 1:
-            rescale(fresh["G"], total)      # a fresh graph object with the values the shared one has at this step
+        apply_edits(fresh["G"], family, steps[:i + 1])   # a fresh graph object with the shape and values the shared one has at this step
         want.append(run_step(fp, st, fresh))
     inp = {"family": family, "history": steps}
     diff = [i for i, (a, b) in enumerate(zip(got, want)) if a != b]
@@ -632,8 +673,7 @@ def history_case(ctx, family, steps, suite="C18.history"):
     # the shared objects themselves against the table's may-write set
     if may is not None:
         fresh = pristine(family)
-        if total != 1:
-            rescale(fresh["G"], total)
+        apply_edits(fresh["G"], family, steps)
         changed = [j for j, r in enumerate(REFS) if K.differs(shared[r], K.snapshot(fresh[r]))]
         if not set(changed) <= set(may):
             ctx.disagree("K4.aliasing.history", inp, {"changed_refs": [REFS[j] for j in changed]},
@@ -803,6 +843,12 @@ def run(ctx):
         history_case(ctx, "dag", [{"cls": a, "features": [], "dk": 0}, {"cls": b, "features": [], "dk": 0, "rescale": 3}])
     history_case(ctx, "cyc", [{"cls": "kFlowDecompCycles", "features": [], "dk": 0},
                               {"cls": "MinFlowDecompCycles", "features": [], "dk": 0, "rescale": 2}])
+    # the caller rewires its graph object in place (same size, smaller width afterwards): the minimum searches start from the width
+    for a, b in (("MinFlowDecompCycles", "MinFlowDecompCycles"), ("kPathCoverCycles", "MinPathCoverCycles"),
+                 ("kFlowDecompCycles", "MinFlowDecompCycles")):
+        history_case(ctx, "cyc", [{"cls": a, "features": [], "dk": 0, "rewire": True}, {"cls": b, "features": [], "dk": 0, "rewire": True}])
+    for a, b in (("MinFlowDecomp", "MinFlowDecomp"), ("kPathCover", "MinPathCover")):
+        history_case(ctx, "dag", [{"cls": a, "features": [], "dk": 0}, {"cls": b, "features": [], "dk": 0, "rewire": True}])
     for it in range(ctx.n(40, 600)):
         fam = "cyc" if it % 2 else "dag"
         history_case(ctx, fam, random_history(rng, fam))
